@@ -954,7 +954,7 @@ class BasicCriterion(Criterion):
             right=_operand_sql(self.right, quote_char=quote_char, **kwargs),
         )
         if with_alias:
-            return format_alias_sql(sql, self.alias, **kwargs)
+            return format_alias_sql(sql, self.alias, quote_char=quote_char, **kwargs)
         return sql
 
 
